@@ -326,7 +326,17 @@ func runC12(c *engine.Ctx) {
 		"decoded-length=1":  func(p, e []byte) ([]byte, int) { return e, 1 },
 		"decoded-length*2":  func(p, e []byte) ([]byte, int) { return e, 2 * len(p) },
 		"decoded-length=10": func(p, e []byte) ([]byte, int) { return e, 10 }, // exactly the first chunk
-		"decoded-length-1":  func(p, e []byte) ([]byte, int) { return e, len(p) - 1 },
+		"trailing-junk": func(p, e []byte) ([]byte, int) {
+			return append(append([]byte{}, e...), []byte("junkjunkjunk")...), len(p)
+		},
+		"two-streams-declared-first": func(p, e []byte) ([]byte, int) {
+			return append(append([]byte{}, e...), e...), len(p)
+		},
+		"zero-chunk-in-the-middle-declared-prefix": func(p, e []byte) ([]byte, int) {
+			first := drv.EncodeChunked(p[:10], []int{10})
+			return append(first[:len(first)-2], e...), 10 // zero chunk, then a complete stream follows
+		},
+		"decoded-length-1": func(p, e []byte) ([]byte, int) { return e, len(p) - 1 },
 		"chunk-size-larger-than-data": func(p, e []byte) ([]byte, int) {
 			return drv.EncodeChunked(p, []int{len(p)})[:0], len(p)
 		},
